@@ -349,6 +349,11 @@ pub fn write_replay(prop: &str, f: &Failure) -> PathBuf {
     path
 }
 
+/// A finding's `signature` is a list of alternative prefixes separated by '|' (one defect, several observable symptoms).
+pub fn sig_matches(sig: &str, pattern: &str) -> bool {
+    pattern.split('|').any(|p| !p.is_empty() && sig.starts_with(p))
+}
+
 /// Run the replay inputs of known findings. `run` executes one saved case.
 pub fn replay_known(
     ctx: &Ctx,
@@ -378,8 +383,16 @@ pub fn replay_known(
         }
         match (&k.status[..], verdict) {
             ("open", Verdict::Fail { sig, detail }) => {
-                if k.signature.is_empty() || sig.starts_with(&k.signature) {
+                if k.signature.is_empty() || sig_matches(&sig, &k.signature) {
                     report.known_lines.push(format!("KNOWN-FINDING: property={} {} [{}]", ctx.prop, k.what, k.id));
+                } else if let Some(other) = ctx.findings().iter().find(|o| o.status == "open" && !o.signature.is_empty() && sig_matches(&sig, &o.signature)) {
+                    // the saved input of this finding failed with the signature of ANOTHER listed finding of the property
+                    // (replays of race- or crash-dependent findings are not deterministic): still a listed finding
+                    let line = format!("KNOWN-FINDING: property={} {} [{}]", ctx.prop, other.what, other.id);
+                    if !report.known_lines.contains(&line) {
+                        report.known_lines.push(line);
+                    }
+                    report.notes.push(format!("replay of known finding {} failed with the signature of known finding {}", k.id, other.id));
                 } else {
                     report.violations.push(Failure { check, sig, detail, case: v["case"].clone() });
                 }
